@@ -1,4 +1,5 @@
 import DoltVerif.Lemmas.Ignore
+import DoltVerif.Lemmas.IgnoreRename
 /-!
 C46 — Ignored tables stay out of commits and clean removes only untracked tables.
 
@@ -21,8 +22,10 @@ witness that the harness replays on the real code on every run:
   — `StageTables` filters *every* name through dolt_ignore, not only new tables (finding D2).
 
 `moreSpecific_sound` needs one hypothesis that is genuinely necessary: the candidate pattern has no
-literal newline (a `?` of the less specific pattern absorbs it, but `?` never matches a newline in a
-table name); the unrestricted statement is refuted by `a?` / `a\n`.
+more literal newlines than the less specific one (`moreSpecific_sound_count`; otherwise a `?`
+absorbs a newline, which `?` never matches in a table name); the unrestricted statement is refuted
+by `a?` / `a\n`.  For two patterns that match a common name the hypothesis always holds
+(`moreSpecific_sound_common_name`), so `winner_dominates` is proved for all pattern sets.
 -/
 namespace DoltVerif.C46
 open DoltVerif.Ignore
@@ -50,9 +53,10 @@ theorem moreSpecific_sound_full_false : ¬ moreSpecific_sound_full := by
   have := h "a?".toList ['a', '\n'] (by decide) ['a', '\n'] (by decide)
   revert this; decide
 
-/-- **What the code accepts as "more specific" matches fewer names**: when the candidate contains
-no literal newline, every name matching the candidate matches the less specific pattern. -/
-theorem moreSpecific_sound_partial {p q : Str} (hq : ∀ c ∈ q, c ≠ '\n')
+/-- **What the code accepts as "more specific" matches fewer names**, under the weakest hypothesis
+the argument needs: the candidate has no more literal newlines than the less specific pattern (so
+no `?` absorbs one).  Every name matching the candidate then matches the less specific pattern. -/
+theorem moreSpecific_sound_count {p q : Str} (hn : nl q ≤ nl p)
     (h : moreSpecific p q = true) : ∀ s, matchesName q s = true → matchesName p s = true := by
   intro s hs
   have hd : Den qOk p q := den_of_match h
@@ -61,13 +65,29 @@ theorem moreSpecific_sound_partial {p q : Str} (hq : ∀ c ∈ q, c ≠ '\n')
   clear h hs
   induction hd generalizing s with
   | nil => rw [den_nil_inv hs']; exact .nil
-  | @star p ps w q' hp hw _ ih =>
+  | @star p ps w q' hp hw hden ih =>
     obtain ⟨s1, s2, rfl, h1, h2⟩ := den_append_split hs'
-    have hq' : ∀ c ∈ q', c ≠ '\n' := fun c hc => hq c (by simp [hc])
-    exact .star hp (den_dotOk h1 hw) (ih hq' _ h2)
-  | @one p c ps q' hp hc _ ih =>
-    have hq' : ∀ c ∈ q', c ≠ '\n' := fun c hc => hq c (by simp [hc])
-    have hcq := hq c (by simp)
+    have hn' : nl q' ≤ nl ps := by
+      rw [nl_append, nl_zero_of_dotOk hw] at hn
+      simpa [nl, isStar_ne_nl hp] using hn
+    exact .star hp (den_dotOk h1 hw) (ih hn' _ h2)
+  | @one p c ps q' hp hc hden ih =>
+    have hle := nl_le_of_den_q hden
+    -- the tail keeps the hypothesis, and a `?` does not sit on a newline
+    have hkey : nl q' ≤ nl ps ∧ ((p == '?') = true → (c == '\n') = false) := by
+      unfold charOk at hc
+      by_cases hq1 : (p == '?') = true
+      · have hp' : p = '?' := by simpa using hq1
+        subst hp'
+        simp only [nl] at hn
+        by_cases hcn : (c == '\n') = true
+        · simp [hcn] at hn; omega
+        · simp at hcn; simp [hcn] at hn
+          exact ⟨by simpa using hn, fun _ => by simpa using hcn⟩
+      · have hcp : c = p := by simpa [hq1] using hc
+        subst hcp
+        simp only [nl] at hn
+        exact ⟨by omega, fun h => absurd h hq1⟩
     rcases den_cons_inv hs' with ⟨hstar, _⟩ | ⟨hns, d, s', rfl, hd, h'⟩
     · -- the candidate character is `*` or `%`: the `?` class excludes both, a literal is not a star
       exfalso
@@ -81,7 +101,7 @@ theorem moreSpecific_sound_partial {p q : Str} (hq : ∀ c ∈ q, c ≠ '\n')
         · exact hc.2 h
       · have : c = p := by simpa [hq1] using hc
         subst this; rw [hstar] at hp; cases hp
-    · refine .one hp ?_ (ih hq' _ h')
+    · refine .one hp ?_ (ih hkey.1 _ h')
       unfold charOk at hc hd ⊢
       by_cases hq1 : (p == '?') = true
       · simp only [hq1, if_true]
@@ -89,11 +109,28 @@ theorem moreSpecific_sound_partial {p q : Str} (hq : ∀ c ∈ q, c ≠ '\n')
         · simpa [hq2] using hd
         · have : d = c := by simpa [hq2] using hd
           subst this
-          simp [dotOk, hcq]
+          have := hkey.2 hq1
+          simpa [dotOk] using this
       · simp only [hq1, Bool.false_eq_true, if_false] at hc ⊢
         have hcp : c = p := by simpa using hc
         subst hcp
         simpa [hq1] using hd
+
+/-- the special case stated before: a candidate without literal newline -/
+theorem moreSpecific_sound_partial {p q : Str} (hq : ∀ c ∈ q, c ≠ '\n')
+    (h : moreSpecific p q = true) : ∀ s, matchesName q s = true → matchesName p s = true := by
+  refine moreSpecific_sound_count ?_ h
+  have : nl q = 0 := nl_zero_of_dotOk (fun c hc => by simpa [dotOk] using hq c hc)
+  omega
+
+/-- **Two patterns that match one common name**: then the "more specific" test is sound without any
+hypothesis on the patterns -- both carry exactly the newlines of that name (`nl_of_den`). -/
+theorem moreSpecific_sound_common_name {p q name : Str} (hp : matchesName p name = true)
+    (hq : matchesName q name = true) (h : moreSpecific p q = true) :
+    ∀ s, matchesName q s = true → matchesName p s = true := by
+  refine moreSpecific_sound_count ?_ h
+  rw [← nl_of_den (den_of_match hp), ← nl_of_den (den_of_match hq)]
+  exact Nat.le_refl _
 
 /-- the former D1 witness: `a%` is no longer accepted as more specific than `a?` -/
 example : moreSpecific "a?".toList "a%".toList = false ∧ moreSpecific "a%".toList "a?".toList = true := by
@@ -214,10 +251,7 @@ example : resolve ["a*".toList, "a*".toList] ["ab".toList] = .conflict ∧
 /-! ## 5. the winner really is at least as specific (and where that fails) -/
 
 /-- the semantic claim behind "the most specific matching pattern wins", without any hypothesis
-on the patterns.  Not proved: the only gap is a literal newline inside a pattern (then
-`moreSpecific_sound_partial` does not apply); since two patterns that match the *same* name must
-carry the same number of literal newlines, a `?` can in fact never absorb one here, but that
-counting argument is not formalised. -/
+on the patterns (proved below: `winner_dominates`) -/
 def winner_dominates_full : Prop :=
   ∀ (ps : List Pat) (name : Str), (ps.map (·.pat)).Nodup →
     (decideName ps name = .dontIgnore → ∀ t ∈ trueMatches ps name,
@@ -228,20 +262,23 @@ than `a%` (not ignored), table `ab` is ignored; with the flags swapped it is not
 example : decideName [⟨"a?".toList, true⟩, ⟨"a%".toList, false⟩] "ab".toList = .ignore ∧
     decideName [⟨"a?".toList, false⟩, ⟨"a%".toList, true⟩] "ab".toList = .dontIgnore := by decide
 
-/-- **The winner really is at least as specific**: when no pattern contains a literal newline, a "not ignored" verdict means every
-matching ignored pattern is overridden by a matching not-ignored pattern that matches only names
-the ignored one matches, and symmetrically for an "ignored" verdict. -/
-theorem winner_dominates_partial (ps : List Pat) (name : Str) (hnd : (ps.map (·.pat)).Nodup)
-    (hclean : ∀ p ∈ ps, ∀ c ∈ p.pat, c ≠ '\n') :
+theorem mem_matches {ps : List Pat} {name x : Str}
+    (hx : x ∈ trueMatches ps name ∨ x ∈ falseMatches ps name) : matchesName x name = true := by
+  unfold trueMatches falseMatches at hx
+  simp only [List.mem_map, List.mem_filter, Bool.and_eq_true] at hx
+  rcases hx with ⟨p, ⟨_, _, hm⟩, rfl⟩ | ⟨p, ⟨_, _, hm⟩, rfl⟩ <;> exact hm
+
+/-- **The winner really is at least as specific -- for all pattern sets** (distinct patterns, as in
+dolt_ignore).  A "not ignored" verdict means every matching ignored pattern is overridden by a
+matching not-ignored pattern that matches only names the ignored one matches; symmetrically for an
+"ignored" verdict (other than the rebase table).  No hypothesis about newlines is needed: all
+matching patterns match the same name, hence carry the same number of literal newlines, hence no
+`?` absorbs one (`moreSpecific_sound_common_name`). -/
+theorem winner_dominates (ps : List Pat) (name : Str) (hnd : (ps.map (·.pat)).Nodup) :
     (decideName ps name = .dontIgnore → ∀ t ∈ trueMatches ps name,
       ∃ f ∈ falseMatches ps name, ∀ s, matchesName f s = true → matchesName t s = true) ∧
     (decideName ps name = .ignore → isRebaseTable name = false → ∀ f ∈ falseMatches ps name,
       ∃ t ∈ trueMatches ps name, ∀ s, matchesName t s = true → matchesName f s = true) := by
-  have hcl : ∀ x, (x ∈ trueMatches ps name ∨ x ∈ falseMatches ps name) → ∀ c ∈ x, c ≠ '\n' := by
-    intro x hx
-    unfold trueMatches falseMatches at hx
-    simp only [List.mem_map, List.mem_filter] at hx
-    rcases hx with ⟨p, ⟨hp, _⟩, rfl⟩ | ⟨p, ⟨hp, _⟩, rfl⟩ <;> exact hclean p hp
   have spec := ignore_decision_spec ps name hnd
   simp only [] at spec
   obtain ⟨sR, sN⟩ := spec
@@ -262,7 +299,7 @@ theorem winner_dominates_partial (ps : List Pat) (name : Str) (hnd : (ps.map (·
     obtain ⟨d1, d2, d3⟩ := c2 hc
     by_cases hall : ∀ t ∈ trueMatches ps name, Dominated t (falseMatches ps name)
     · obtain ⟨f, hf, hm⟩ := hall t ht
-      exact ⟨f, hf, moreSpecific_sound_partial (hcl f (.inr hf)) hm⟩
+      exact ⟨f, hf, moreSpecific_sound_common_name (mem_matches (.inl ht)) (mem_matches (.inr hf)) hm⟩
     · by_cases hall2 : ∀ f ∈ falseMatches ps name, Dominated f (trueMatches ps name)
       · rw [d2 hall hall2] at hd; cases hd
       · rw [d3 hall hall2] at hd; cases hd
@@ -278,8 +315,21 @@ theorem winner_dominates_partial (ps : List Pat) (name : Str) (hnd : (ps.map (·
     · rw [d1 hall] at hd; cases hd
     · by_cases hall2 : ∀ f ∈ falseMatches ps name, Dominated f (trueMatches ps name)
       · obtain ⟨t, ht, hm⟩ := hall2 f hf
-        exact ⟨t, ht, moreSpecific_sound_partial (hcl t (.inl ht)) hm⟩
+        exact ⟨t, ht, moreSpecific_sound_common_name (mem_matches (.inr hf)) (mem_matches (.inl ht)) hm⟩
       · rw [d3 hall hall2] at hd; cases hd
+
+/-- the full statement holds -/
+theorem winner_dominates_full_holds : winner_dominates_full :=
+  fun ps name hnd => (winner_dominates ps name hnd).1
+
+/-- kept under its old name (now a corollary; the hypothesis is not needed any more) -/
+theorem winner_dominates_partial (ps : List Pat) (name : Str) (hnd : (ps.map (·.pat)).Nodup)
+    (_hclean : ∀ p ∈ ps, ∀ c ∈ p.pat, c ≠ '\n') :
+    (decideName ps name = .dontIgnore → ∀ t ∈ trueMatches ps name,
+      ∃ f ∈ falseMatches ps name, ∀ s, matchesName f s = true → matchesName t s = true) ∧
+    (decideName ps name = .ignore → isRebaseTable name = false → ∀ f ∈ falseMatches ps name,
+      ∃ t ∈ trueMatches ps name, ∀ s, matchesName t s = true → matchesName f s = true) :=
+  winner_dominates ps name hnd
 
 example : decideName [⟨"a*".toList, true⟩, ⟨"a?".toList, false⟩] "ab".toList = .dontIgnore := by decide
 
@@ -623,5 +673,231 @@ example : (clean true [⟨"i*".toList, true⟩] [] [] [⟨"t".toList, 1⟩]
     (clean false [⟨"i*".toList, true⟩] [] [] [⟨"t".toList, 1⟩]
     [⟨"t".toList, 2⟩, ⟨"i1".toList, 5⟩, ⟨"u".toList, 7⟩]).toOption = some [⟨"t".toList, 2⟩] := by
   decide
+
+/-! ## 9. table RENAME (roots with identities, `Model/IgnoreRename.lean`) -/
+
+/-- `StageTables` without `--force` on roots with identities: the first named table with
+conflicting patterns is reported, else the staged root becomes `stagedAfter` of the named tables
+decided "not ignored". -/
+theorem stageTablesR_spec (ps : List Pat) (tbls : List Str) (st w : TRoot)
+    (hex : ∀ n ∈ tbls, st.has n = true ∨ w.has n = true) :
+    ((∃ n ∈ tbls, decideName ps n = .conflict) →
+      ∃ n ∈ tbls, decideName ps n = .conflict ∧ stageTablesR false ps tbls st w = .error (.conflict n)) ∧
+    ((∀ n ∈ tbls, decideName ps n ≠ .conflict) →
+      ∃ st', stageTablesR false ps tbls st w = .ok st' ∧
+        ∀ n, st'.get? n =
+          stagedAfter (tbls.filter (fun n => decideName ps n == .dontIgnore)) st w n) := by
+  constructor
+  · intro h
+    have : (tbls.find? (fun n => decideName ps n == .conflict)).isSome = true := by
+      rw [List.find?_isSome]; obtain ⟨n, hn, hc⟩ := h; exact ⟨n, hn, by simp [hc]⟩
+    obtain ⟨n, hn⟩ := Option.isSome_iff_exists.mp this
+    refine ⟨n, List.mem_of_find?_eq_some hn, by simpa using List.find?_some hn, ?_⟩
+    simp [stageTablesR, filterForStaging, hn, bind, Except.bind]
+  · intro h
+    have hnone : tbls.find? (fun n => decideName ps n == .conflict) = none := by
+      rw [List.find?_eq_none]; intro n hn; simpa using h n hn
+    have hval : (tbls.filter (fun n => decideName ps n == .dontIgnore)).find?
+        (fun n => !(st.has n || w.has n)) = none := by
+      rw [List.find?_eq_none]; intro n hn
+      have := hex n (List.mem_filter.mp hn).1
+      rcases this with h | h <;> simp [h]
+    refine ⟨moveTablesR (tbls.filter (fun n => decideName ps n == .dontIgnore)) w st, ?_, ?_⟩
+    · unfold stageTablesR
+      simp only [Bool.false_eq_true, if_false, filterForStaging, hnone, validateTablesT, hval, bind,
+        Except.bind, pure, Except.pure]
+    · intro n; exact get?_moveTablesR _ w st n
+
+/-- the names `add -A` actually moves: tables of either root decided "not ignored" -/
+def stagedNames (ps : List Pat) (st w : TRoot) : List Str :=
+  (unionNamesT st w).filter (fun n => decideName ps n == .dontIgnore)
+
+theorem mem_stagedNames (ps : List Pat) (st w : TRoot) (n : Str) :
+    (stagedNames ps st w).contains n = true ↔
+      ((st.has n = true ∨ w.has n = true) ∧ decideName ps n = .dontIgnore) := by
+  unfold stagedNames
+  simp [List.mem_filter, mem_unionNamesT]
+
+/-- `dolt add -A` / staging half of `dolt commit -A` with renames, pointwise over all names -/
+theorem stageAllR_spec (ps : List Pat) (st w : TRoot) :
+    ((∃ n ∈ unionNamesT st w, decideName ps n = .conflict) →
+      ∃ n ∈ unionNamesT st w, decideName ps n = .conflict ∧
+        stageAllR false ps st w = .error (.conflict n)) ∧
+    ((∀ n ∈ unionNamesT st w, decideName ps n ≠ .conflict) →
+      ∃ st', stageAllR false ps st w = .ok st' ∧
+        ∀ n, st'.get? n = stagedAfter (stagedNames ps st w) st w n) :=
+  stageTablesR_spec ps (unionNamesT st w) st w (fun n hn => (mem_unionNamesT st w n).mp hn)
+
+/-- helper: a successful `add -A` is described by `stagedAfter` -/
+theorem stageAllR_ok {ps : List Pat} {st w st' : TRoot} (h : stageAllR false ps st w = .ok st') (n : Str) :
+    st'.get? n = stagedAfter (stagedNames ps st w) st w n := by
+  obtain ⟨h1, h2⟩ := stageAllR_spec ps st w
+  by_cases hc : ∃ n ∈ unionNamesT st w, decideName ps n = .conflict
+  · obtain ⟨m, _, _, he⟩ := h1 hc; rw [he] at h; cases h
+  · obtain ⟨st'', he, hs⟩ := h2 (fun n hn hcn => hc ⟨n, hn, hcn⟩)
+    rw [he] at h; cases h; exact hs n
+
+/-- **Ignored names and renames** (`staging_excludes_ignored` extended): after a successful
+`add -A` / `commit -A` the staged entry of a name decided "ignore" is unchanged -- unless that table
+was renamed in the working set to a name that is *not* ignored, in which case the rename is staged
+and the old name leaves the staged root.  In particular a name that is not in the staged root and
+is decided "ignore" is never staged, whether it is a new table or the new name of a renamed one. -/
+theorem staging_excludes_ignored_rename {ps : List Pat} {st w st' : TRoot}
+    (h : stageAllR false ps st w = .ok st') {n : Str} (hn : decideName ps n = .ignore) :
+    st'.get? n =
+      match renamedTo st w n with
+      | some new => if decideName ps new = .dontIgnore then none else st.get? n
+      | none => st.get? n := by
+  rw [stageAllR_ok h n]
+  have hnot : (stagedNames ps st w).contains n = false := by
+    cases hc : (stagedNames ps st w).contains n with
+    | false => rfl
+    | true => have := ((mem_stagedNames ps st w n).mp hc).2; rw [hn] at this; cases this
+  unfold stagedAfter
+  simp only [hnot, Bool.false_and, Bool.false_eq_true, if_false]
+  by_cases hb : (st.has n && !w.has n) = true
+  · simp only [hb, if_true]
+    cases hr : renamedTo st w n with
+    | none => simp
+    | some new =>
+      obtain ⟨_, _, hwn, _⟩ := renamedTo_some hr
+      by_cases hd : decideName ps new = .dontIgnore
+      · have : (stagedNames ps st w).contains new = true :=
+          (mem_stagedNames ps st w new).mpr ⟨.inr hwn, hd⟩
+        have hm : new ∈ stagedNames ps st w := by simpa using this
+        simp [hm, hd]
+      · have : (stagedNames ps st w).contains new = false := by
+          cases hc : (stagedNames ps st w).contains new with
+          | false => rfl
+          | true => exact absurd ((mem_stagedNames ps st w new).mp hc).2 hd
+        have hm : ¬ new ∈ stagedNames ps st w := by simpa using this
+        simp [hm, hd]
+  · simp only [hb, Bool.false_eq_true, if_false]
+    have : renamedTo st w n = none := by
+      simp only [Bool.and_eq_true, Bool.not_eq_true', not_and, Bool.not_eq_false] at hb
+      by_cases hs : st.has n = true
+      · exact renamedTo_none_of_working (hb hs)
+      · exact renamedTo_none_of_not_staged (by simpa using hs)
+    simp [this]
+
+/-- corollary: an ignored name that is not in the staged root stays out of it (new table or
+rename target alike) -/
+theorem ignored_new_name_never_staged {ps : List Pat} {st w st' : TRoot}
+    (h : stageAllR false ps st w = .ok st') {n : Str} (hn : decideName ps n = .ignore)
+    (hs : st.has n = false) : st'.get? n = none := by
+  rw [staging_excludes_ignored_rename h hn, renamedTo_none_of_not_staged hs]
+  exact get?_none_of_not_hasT hs
+
+/-- **What `add -A` / `commit -A` do with a renamed tracked table: only the new name decides.**
+`old` (tracked) was renamed to `new` in the working set.  If `new` is decided "not ignored" the
+rename is staged -- `old` leaves the staged root, `new` enters with the working value -- even when
+`old` itself matches an ignore pattern.  If `new` is ignored nothing is staged: the staged root
+keeps `old` as it was and does not get `new` -- even when `old` is not ignored. -/
+theorem staging_rename {ps : List Pat} {st w st' : TRoot}
+    (h : stageAllR false ps st w = .ok st') {old new : Str} (hr : renamedTo st w old = some new) :
+    (decideName ps new = .dontIgnore → st'.get? old = none ∧ st'.get? new = w.get? new) ∧
+    (decideName ps new = .ignore → st'.get? old = st.get? old ∧ st'.get? new = none) := by
+  obtain ⟨hso, hwo, hwn, hsn⟩ := renamedTo_some hr
+  have hold : (tbls : List Str) → stagedAfter tbls st w old =
+      if tbls.contains new then none else st.get? old := by
+    intro tbls; simp [stagedAfter, hso, hwo, hr]
+  constructor
+  · intro hd
+    have hin : (stagedNames ps st w).contains new = true :=
+      (mem_stagedNames ps st w new).mpr ⟨.inr hwn, hd⟩
+    refine ⟨by rw [stageAllR_ok h old, hold, hin]; simp, ?_⟩
+    have hm : new ∈ stagedNames ps st w := by simpa using hin
+    rw [stageAllR_ok h new]; simp [stagedAfter, hm, hwn]
+  · intro hi
+    have hout : (stagedNames ps st w).contains new = false := by
+      cases hc : (stagedNames ps st w).contains new with
+      | false => rfl
+      | true => have := ((mem_stagedNames ps st w new).mp hc).2; rw [hi] at this; cases this
+    refine ⟨by rw [stageAllR_ok h old, hold, hout]; simp, ignored_new_name_never_staged h hi hsn⟩
+
+example : (stageAllR false [⟨"i*".toList, true⟩] [⟨"t".toList, 7, 1⟩, ⟨"u".toList, 8, 2⟩]
+      [⟨"i1".toList, 7, 1⟩, ⟨"v".toList, 8, 3⟩]).toOption
+    = some [⟨"t".toList, 7, 1⟩, ⟨"v".toList, 8, 3⟩] ∧
+    renamedTo [⟨"t".toList, 7, 1⟩, ⟨"u".toList, 8, 2⟩] [⟨"i1".toList, 7, 1⟩, ⟨"v".toList, 8, 3⟩] "t".toList
+      = some "i1".toList := by decide
+
+/-- without any rename in the working set the rename-aware machine is the plain one: every name
+that is not renamed away gets exactly what `stageAll_spec` says -/
+theorem staging_no_rename {ps : List Pat} {st w st' : TRoot}
+    (h : stageAllR false ps st w = .ok st') {n : Str} (hr : renamedTo st w n = none) :
+    st'.get? n = if decideName ps n = .dontIgnore then w.get? n else st.get? n := by
+  rw [stageAllR_ok h n]
+  unfold stagedAfter
+  by_cases hd : decideName ps n = .dontIgnore
+  · by_cases hw : w.has n = true
+    · have : (stagedNames ps st w).contains n = true := (mem_stagedNames ps st w n).mpr ⟨.inr hw, hd⟩
+      have hm : n ∈ stagedNames ps st w := by simpa using this
+      simp [hm, hw, hd]
+    · have hw' : w.has n = false := by simpa using hw
+      by_cases hs : st.has n = true
+      · have : (stagedNames ps st w).contains n = true := (mem_stagedNames ps st w n).mpr ⟨.inl hs, hd⟩
+        have hm : n ∈ stagedNames ps st w := by simpa using this
+        simp [hm, hw', hs, hr, hd, get?_none_of_not_hasT hw']
+      · have hs' : st.has n = false := by simpa using hs
+        simp [hw', hs', hd, get?_none_of_not_hasT hw', get?_none_of_not_hasT hs']
+  · have : (stagedNames ps st w).contains n = false := by
+      cases hc : (stagedNames ps st w).contains n with
+      | false => rfl
+      | true => exact absurd ((mem_stagedNames ps st w n).mp hc).2 hd
+    simp only [this, Bool.false_and, Bool.false_eq_true, if_false, hd, hr]
+    by_cases hb : (st.has n && !w.has n) = true <;> simp [hb]
+
+/-- **`dolt clean` on roots with identities** (`clean_exact` extended): clean is blind to renames --
+"untracked" is decided by the *name* alone. -/
+theorem cleanR_exact (respect : Bool) (ps : List Pat) (nl : List Str) (st w : TRoot) :
+    ((respect = true ∧ ∃ n ∈ w.names, decideName ps n = .conflict) →
+      ∃ n, cleanR respect ps nl [] st w = .error (.conflict n) ∧ decideName ps n = .conflict) ∧
+    (¬ (respect = true ∧ ∃ n ∈ w.names, decideName ps n = .conflict) →
+      ∃ w', cleanR respect ps nl [] st w = .ok w' ∧
+        ∀ n, w'.get? n =
+          if w.has n = true ∧ st.has n = false ∧ (respect = false ∨ decideName ps n ≠ .ignore) ∧
+             (nl.any (fun p => matchesName p n)) = false
+          then none else w.get? n) := by
+  obtain ⟨h1, h2⟩ := clean_exact respect ps nl st.plain w.plain
+  rw [plain_names] at h1 h2
+  constructor
+  · intro h
+    obtain ⟨n, he, hc⟩ := h1 h
+    exact ⟨n, by simp [cleanR, he], hc⟩
+  · intro h
+    obtain ⟨w', he, hs⟩ := h2 h
+    refine ⟨w.filter (fun e => w'.has e.name), by simp [cleanR, he], fun n => ?_⟩
+    rw [get?_filterT w (fun m => w'.has m) n]
+    have hw' : w'.has n = (w'.get? n).isSome := rfl
+    rw [hw', hs n, plain_has, plain_has, plain_get?]
+    by_cases hc : w.has n = true ∧ st.has n = false ∧ (respect = false ∨ decideName ps n ≠ .ignore) ∧
+        (nl.any (fun p => matchesName p n)) = false
+    · simp [hc]
+    · simp only [hc, if_false]
+      by_cases hwn : w.has n = true
+      · have : ((w.get? n).map (·.2)).isSome = true := by
+          unfold TRoot.has at hwn; cases hg : w.get? n <;> simp_all
+        simp [this]
+      · have hwn' : w.has n = false := by simpa using hwn
+        simp [get?_none_of_not_hasT hwn']
+
+/-- **Stated outright: a tracked table that was renamed in the working set is removed by
+`dolt clean`** (under its new name it is "untracked"), unless the new name is ignored and `-x` is
+not given (or it matches dolt_nonlocal_tables).  The staged root still holds the table under its
+old name, so committed data survives; uncommitted changes to it are lost like those of any
+untracked table. -/
+theorem clean_removes_renamed {respect : Bool} {ps : List Pat} {st w w' : TRoot}
+    (h : cleanR respect ps [] [] st w = .ok w') {old new : Str} (hr : renamedTo st w old = some new)
+    (hi : respect = false ∨ decideName ps new ≠ .ignore) : w'.get? new = none := by
+  obtain ⟨_, _, hwn, hsn⟩ := renamedTo_some hr
+  obtain ⟨h1, h2⟩ := cleanR_exact respect ps [] st w
+  by_cases hc : respect = true ∧ ∃ n ∈ w.names, decideName ps n = .conflict
+  · obtain ⟨m, he, _⟩ := h1 hc; rw [he] at h; cases h
+  · obtain ⟨w'', he, hs⟩ := h2 hc
+    rw [he] at h; cases h
+    rw [hs new]; simp [hwn, hsn, hi]
+
+example : (cleanR true [] [] [] [⟨"t".toList, 7, 1⟩] [⟨"r".toList, 7, 2⟩]).toOption = some [] ∧
+    renamedTo [⟨"t".toList, 7, 1⟩] [⟨"r".toList, 7, 2⟩] "t".toList = some "r".toList := by decide
 
 end DoltVerif.C46
